@@ -727,6 +727,73 @@ def _cv_key(fn, stmt) -> str:
     return f"{fn.name}: {ast.unparse(A().visit(copy.deepcopy(stmt.value)))}"
 
 
+def _guard_key(fn, test) -> str:
+    """rename- and move-invariant key of a guard clause: the shape of its test with local names blanked"""
+    class A(ast.NodeTransformer):
+        def visit_Name(self, n):
+            return ast.Name(id="_", ctx=ast.Load())
+
+    return ast.unparse(A().visit(copy.deepcopy(test)))
+
+
+def _baseline_guards():
+    try:
+        return set(json.loads(BASELINE.read_text()).get("guards", []))
+    except Exception:
+        return None
+
+
+def _guard_sites(tree):
+    """(function, block list, index) of guard clauses:  `if C: continue` inside a loop body with statements after it, and
+    `if C: return` / `return None` at the top level of a function body with statements after it"""
+    out = []
+    for fn in [x for x in ast.walk(tree) if isinstance(x, ast.FunctionDef)]:
+        is_gen = any(isinstance(x, ast.Yield | ast.YieldFrom) for x in ast.walk(fn))
+        for node in ast.walk(fn):
+            if isinstance(node, ast.For | ast.While):
+                blk, kind = node.body, "continue"
+            else:
+                continue  # (function-level `if C: return` guards are left alone: rules look for loops at the top level)
+            for k, st in enumerate(blk[:-1]):
+                if isinstance(st, ast.If) and not st.orelse and len(st.body) == 1 and not any(isinstance(x, ast.NamedExpr) for x in ast.walk(st.test)):
+                    b = st.body[0]
+                    if (kind == "continue" and isinstance(b, ast.Continue)) or (kind == "return" and isinstance(b, ast.Return) and (b.value is None or (isinstance(b.value, ast.Constant) and b.value.value is None))):
+                        out.append((fn, blk, k))
+    return out
+
+
+def guard_candidates(tree):
+    return [_guard_key(fn, blk[k].test) for fn, blk, k in _guard_sites(tree)]
+
+
+def _unguard(tree) -> int:
+    """`if C: continue` + REST (rest of the loop body)  ->  `if not C: REST`   for guard clauses that are not on the pinned tree;
+    same for `if C: return` + REST at the top level of a function that returns nothing."""
+    keep = _baseline_guards()
+    if keep is None:
+        return 0
+    n = 0
+    changed = True
+    while changed:
+        changed = False
+        for fn, blk, k in _guard_sites(tree):
+            st = blk[k]
+            if _guard_key(fn, st.test) in keep:
+                continue
+            if isinstance(st.body[0], ast.Return):
+                # only when the function returns nothing anywhere else with a value
+                if any(isinstance(x, ast.Return) and x.value is not None and not (isinstance(x.value, ast.Constant) and x.value.value is None) for x in ast.walk(fn)):
+                    continue
+            c = st.test
+            neg = c.operand if isinstance(c, ast.UnaryOp) and isinstance(c.op, ast.Not) else ast.copy_location(ast.UnaryOp(op=ast.Not(), operand=c), c)
+            new = ast.copy_location(ast.If(test=neg, body=blk[k + 1:], orelse=[]), st)
+            blk[k:] = [new]
+            n += 1
+            changed = True
+            break
+    return n
+
+
 def _baseline_cond_values():
     try:
         return set(json.loads(BASELINE.read_text()).get("cond_values", []))
@@ -749,7 +816,7 @@ def cond_value_candidates(tree):
 
 
 def normalise_idioms(tree) -> int:
-    n = 0
+    n = _unguard(tree)
     keep = _baseline_cond_values()
     for fn in [x for x in ast.walk(tree) if isinstance(x, ast.FunctionDef)]:
         for node in ast.walk(fn):
